@@ -221,6 +221,21 @@ def generate(prog, contracts, P, tier, results, funcs_report):
         meta = {'owner_var': W.objname.get(r['fs'][1]) if r['fs'][0] == 'fs' else None, 'flagset': r['fs'][2] if r['fs'][0] == 'fs' else None,
                 'flag': r['name'], 'target_pkg': tgt[0], 'target_var': tgt[1]}
         out.append((name, s.to_smt2(), text, meta))
+    # every option of a flag set has a variable of its own: two options of one command bound to the same variable leave
+    # the variable the command reads for one of them unbound (it keeps its zero value, not the documented default)
+    byfs = {}
+    for r in W.reg:
+        if r['target'][0] == 'gaddr' and r['fs'][0] == 'fs':
+            byfs.setdefault((r['fs'][1], r['fs'][2], r['target'][1], r['target'][2]), []).append(r)
+    for (fsid, fsname, tp, tv), rs in sorted(byfs.items(), key=str):
+        names_ = sorted({r['name'] for r in rs})
+        if len(names_) > 1:
+            owner = W.owner(rs[0]['fs']).replace('.PersistentFlags', '').replace('.Flags', '')
+            s_ = z3.Solver()
+            s_.add(z3.BoolVal(True))
+            out.append(('cmd.init#own_variable[%s/%s]' % (owner, ','.join('--' + n for n in names_)), s_.to_smt2(),
+                        'options %s of %s are all bound to the variable %s.%s (registered at %s): at most one of them can be the one the command reads it for' % (
+                            ', '.join('--' + n for n in names_), owner, tp, tv, '; '.join(r['pos'] for r in rs)), None))
     # Second clause of the statement ("leaving an option out has the same effect as passing the default value"): a
     # command that asks pflag whether an option was *given* (FlagSet.Changed) can tell the omitted option from the
     # explicitly passed default, so every such question is an obligation of its own, named after command and option.
@@ -235,9 +250,9 @@ def generate(prog, contracts, P, tier, results, funcs_report):
             continue
         for blk in fn['blocks']:
             for ins in blk['instrs']:
-                if ins['op'] in ('Call', 'Defer', 'Go') and ins.get('static') == '(*github.com/spf13/pflag.FlagSet).Changed':
+                if ins['op'] in ('Call', 'Defer', 'Go') and ins.get('static') in ('(*github.com/spf13/pflag.FlagSet).Changed', '(*github.com/spf13/pflag.FlagSet).NFlag', '(*github.com/spf13/pflag.FlagSet).Visit'):
                     a_ = ins['args'][1] if len(ins['args']) > 1 else None
-                    flag_ = a_['v'] if a_ is not None and a_['k'] == 'const' else '?'
+                    flag_ = a_['v'] if a_ is not None and a_['k'] == 'const' else ('any option: ' + ins['static'].rsplit('.', 1)[-1])
                     base = '%s#omitted_equals_explicit_default[--%s]' % (rev.get(key, key), flag_)
                     n = seen_c.get(base, 0)
                     seen_c[base] = n + 1
